@@ -244,10 +244,11 @@ type Rep struct {
 	Pointers bool // pointer to the value, where reached by variable/property lookup
 	MapSlice bool // yaml.MapSlice for maps (caller guarantees lookup/size use only)
 	Bytes    bool // []byte for strings (caller guarantees print/string-filter-receiver use only)
+	Named    bool // named scalar types: type NTitle string, NInt int, NFloat float64, NBool bool
 }
 
 // AllReps enables every class except the two position-restricted ones.
-var AllReps = Rep{Drops: true, Typed: true, Widths: true, Unsigned: true, Pointers: true}
+var AllReps = Rep{Drops: true, Typed: true, Widths: true, Unsigned: true, Pointers: true, Named: true}
 
 // Realise turns a logical value into a Go value, choosing the
 // representation independently at every node. byLookup says the value is
@@ -303,19 +304,31 @@ func realise1(v V, r *core.Rand, rep Rep, byLookup bool) any {
 		return nil
 	case KBool:
 		x = v.B
+		if rep.Named && r.P(1, 5) {
+			x = NBool(v.B)
+		}
 	case KInt:
 		x = realiseInt(v.I, r, rep)
+		if rep.Named && r.P(1, 6) && int64(int(v.I)) == v.I {
+			x = NInt(v.I)
+		}
 	case KFloat:
 		if rep.Widths && fitsFloat32(v.F) && r.Bool() {
 			x = float32(v.F)
 		} else {
 			x = v.F
 		}
+		if rep.Named && r.P(1, 6) {
+			x = NFloat(v.F)
+		}
 	case KStr:
 		if rep.Bytes && r.Bool() {
 			x = []byte(v.S)
 		} else {
 			x = v.S
+		}
+		if rep.Named && r.P(1, 6) {
+			x = NTitle(v.S)
 		}
 	case KArr:
 		x = realiseArr(v, r, rep)
